@@ -28,6 +28,16 @@ class Hist:
             elif ln.startswith("END unfinished="):
                 self.end["unfinished"] = ln[len("END unfinished="):]
         self.sc = parse_scen(scen_text)
+        # probes that arrived although the model says the thread must wait: (thread, label it was
+        # parked at when it was granted)
+        self.probe_arrivals = []
+        parked = {}
+        for ln in lines:
+            w = ln.split()
+            if len(w) >= 3 and w[0] in ("S", "F"):
+                parked[w[1]] = w[2]
+            elif len(w) >= 3 and w[0] == "P" and w[2] == "arrived":
+                self.probe_arrivals.append((int(w[1]), parked.get(w[1], "client.op")))
 
     def kinds(self, *ks):
         return [e for e in self.ev if e["kind"] in ks]
@@ -476,6 +486,9 @@ def quiescent(h):
 
 def mon_c05(h):
     bad = []
+    for t, label in h.probe_arrivals:
+        if label == "chan.send":
+            bad.append(("waits-when-full", "thread %d: a blocking send returned although the queue already held `capacity` items" % t))
     if h.sc["pol"] != "block" or not quiescent(h):
         return bad
     m = {k: int(v) for k, v in (h.end.get("metrics") or {}).items()}
